@@ -21,7 +21,7 @@ func init() { register(c08{}) }
 
 func (c08) ID() string     { return "C08" }
 func (c08) Level() string  { return "exploration" }
-func (c08) QuickRuns() int { return 30000 }
+func (c08) QuickRuns() int { return 60000 }
 func (c08) Rule() string {
 	return "five seeded families measured on the virtual clock: (1) protocol-level runs of every variant under total silence, only irrelevant/malformed packets, bursts, and a steady noise stream faster than the poll interval that continues past every deadline; (2) both engines over a scripted driver with the caller's context cancelled at a seeded instant; (3) ICMP and SACK entry points cancelled at a seeded instant; (4) RunTraceroute with public-IP providers that stall before headers / after headers / mid body or answer slowly, and a resolver that blocks until its context ends; (5) the public-IP fetcher and reverse-DNS functions called directly under the same stalls; the elapsed virtual time of every call must stay within the bound computed from its parameters, a cancelled engine run must return the cancellation error within poll + send delay; non-trivial = the call ran under a stall, flood or cancellation; distinct = distinct shapes"
 }
@@ -291,7 +291,7 @@ func init() { register(c18{}) }
 
 func (c18) ID() string     { return "C18" }
 func (c18) Level() string  { return "exploration" }
-func (c18) QuickRuns() int { return 30000 }
+func (c18) QuickRuns() int { return 300000 }
 func (c18) Rule() string {
 	return "three seeded families: (a) Results.EnrichWithReverseDns over hop multisets with duplicates, unanswered hops, IPv4/IPv6/IPv4-mapped addresses, the scripted resolver answering per call with unique names, empty lists, errors or slowly, the choice tape ordering the concurrent lookups; (b) sequences of GetReverseDns / PublicIPFetcher.GetIP calls by 1-3 concurrent callers separated by virtual sleeps around the 1 h / 2 h expiries; (c) GetPublicIP with per-provider scripts (status classes, valid/invalid bodies, transport errors, stalls) and a deterministic back-off policy; checked: names on a hop are a list the resolver returned for that very address; a stored success is returned without re-querying until expiry and failures are never stored; providers are contacted in list order, iteration stops at the first valid address, a 4xx or invalid body gets exactly one request, retries stay inside the provider's budget; non-trivial = a lookup failed, a cache entry was reused or expired, or more than one provider was contacted; distinct = distinct shapes"
 }
@@ -495,10 +495,16 @@ func (c18) Check(out *sim.Outcome, ri *RunInfo) []Violation {
 				}
 				// a fresh stored success exists for the whole iteration?
 				var fresh []string
+				// acceptable: every success stored no later than the moment the call returned and not yet
+				// expired then (a concurrent caller may legitimately have replaced the entry meanwhile)
+				var acceptable []string
 				if family == "cache-dns" {
 					for _, s := range stores {
 						if s.at < it.StartAt && s.at+ttl > it.EndAt {
 							fresh = append(fresh, s.val)
+						}
+						if s.at <= it.EndAt && s.at+ttl > it.StartAt {
+							acceptable = append(acceptable, s.val)
 						}
 					}
 				} else {
@@ -507,6 +513,9 @@ func (c18) Check(out *sim.Outcome, ri *RunInfo) []Violation {
 						for _, it2 := range cs2.Iters {
 							if it2.Err == nil && it2.IP != "" && it2.EndAt < it.StartAt && it2.EndAt+ttl > it.EndAt && it2.DialsDuring > 0 {
 								fresh = append(fresh, it2.IP)
+							}
+							if it2.Err == nil && it2.IP != "" && it2.EndAt <= it.EndAt && it2.EndAt+ttl > it.StartAt && it2.DialsDuring > 0 {
+								acceptable = append(acceptable, it2.IP)
 							}
 						}
 					}
@@ -526,13 +535,13 @@ func (c18) Check(out *sim.Outcome, ri *RunInfo) []Violation {
 						vs = append(vs, Violation{Rule: "C18.error-cached", Detail: fmt.Sprintf("%s returned error %v although an unexpired stored success %v existed", who, it.Err, fresh), Facts: facts("family", family)})
 					} else {
 						found := false
-						for _, f := range fresh {
+						for _, f := range acceptable {
 							if f == val {
 								found = true
 							}
 						}
 						if !found {
-							vs = append(vs, Violation{Rule: "C18.stale", Detail: fmt.Sprintf("%s returned %q, the unexpired stored successes are %v", who, val, fresh), Facts: facts("family", family)})
+							vs = append(vs, Violation{Rule: "C18.stale", Detail: fmt.Sprintf("%s returned %q, the stored successes valid during the call are %v", who, val, acceptable), Facts: facts("family", family)})
 						}
 					}
 				}
